@@ -129,7 +129,9 @@ class Divider(FormulaStep):
         """
         val2 = eval_stack.pop()
         val1 = eval_stack.pop()
-        res = val1 / val2
+        # A division by zero has no finite result: push NaN (reported as a `None`
+        # sample) instead of raising and losing the whole sample.
+        res = val1 / val2 if val2 != 0.0 else math.nan
         eval_stack.append(res)
 
 
